@@ -128,6 +128,15 @@ def values(thorough):
     for st in ("x\n", "a\n\n", "\n", "\n\n", "l1\nl2\n\n\n"):
         for v in (L(st, I(1)), L(I(1), st), L(st, st), L(st, "plain", st), L(T(("k", st)), T(("k", st)))):
             yield "multi-doc-list-ending-in-line-breaks", v
+    # a tuple that carries one field name more than once (map over a tuple can make one: `map(func (k, v) => ["x", v], t)`);
+    # selection reads the first field of a name, so that is the tuple's value for the name (a sixth-round remark about the
+    # unchanged tree). Handed to the converters directly: a literal of this spelling is an override, not a repetition.
+    dup = [T(("x", I(1)), ("x", I(2))), T(("x", I(1)), ("y", I(0)), ("x", "s")), T(("x", I(1)), ("x", I(2)), ("x", I(3))), T(("y", I(0)), ("x", L(I(1))), ("x", T(("z", I(2)))))]
+    for d in dup:
+        yield "repeated-field-name", d
+        yield "repeated-field-name", T(("k", d))
+        yield "repeated-field-name", L(d, d)
+        yield "repeated-field-name", T(("k", L(d)))
     yield "constraint", T(("k", {"k": 1}))
     yield "constraint-top", {"k": 1}
     yield "constraint-in-list", T(("k", L({"k": 1})))
@@ -409,7 +418,7 @@ def run(ctx):
 
     for part in core.pmap_gen(work, values(thorough), chunk=300):
         absorb(part)
-    src_vals = ((c, w) for c, w in values(False) if not c.startswith("string") or len(w if isinstance(w, str) else "") <= 1 or c.endswith("top"))
+    src_vals = ((c, w) for c, w in values(False) if c != "repeated-field-name" and (not c.startswith("string") or len(w if isinstance(w, str) else "") <= 1 or c.endswith("top")))
     for part in core.pmap_gen(work_source, src_vals, chunk=150):
         absorb(part)
 
